@@ -204,12 +204,17 @@ func (p List) Struct(i int) Struct {
 	if !ok {
 		return Struct{}
 	}
+	depthLimit := p.depthLimit
+	if depthLimit > 0 {
+		// Saturate: an unsigned wrap-around would lift the depth limit.
+		depthLimit--
+	}
 	return Struct{
 		seg:        p.seg,
 		off:        addr,
 		size:       p.size,
 		flags:      isListMember,
-		depthLimit: p.depthLimit - 1,
+		depthLimit: depthLimit,
 	}
 }
 
